@@ -115,6 +115,7 @@ type Sim struct {
 	stamp   atomic.Uint64
 	notify  chan struct{}
 	locks   map[any]*lockModel
+	pools   map[*sync.Pool][]any // model of the sync.Pools the code under test uses (PoolGet / PoolPut)
 	free    atomic.Bool
 	arrival uint64
 
@@ -251,6 +252,44 @@ func Yield(site string) {
 		return
 	}
 	s.yield(s.me(site), site)
+}
+
+// PoolGet / PoolPut are woven in place of (*sync.Pool).Get / Put: inside a simulated run a pool is a
+// plain LIFO stack that starts empty, so that what a Get returns is a function of the run alone (the
+// real pool's answer depends on which P the goroutine runs on and on garbage collections). Outside a
+// run they are the real thing.
+func PoolGet(p *sync.Pool) any {
+	s := cur.Load()
+	if s == nil {
+		return p.Get()
+	}
+	s.mu.Lock()
+	st := s.pools[p]
+	if n := len(st); n > 0 {
+		v := st[n-1]
+		s.pools[p] = st[:n-1]
+		s.mu.Unlock()
+		return v
+	}
+	s.mu.Unlock()
+	if p.New != nil {
+		return p.New()
+	}
+	return nil
+}
+
+func PoolPut(p *sync.Pool, v any) {
+	s := cur.Load()
+	if s == nil {
+		p.Put(v)
+		return
+	}
+	if v == nil {
+		return
+	}
+	s.mu.Lock()
+	s.pools[p] = append(s.pools[p], v)
+	s.mu.Unlock()
 }
 
 // YieldMem is a possible context switch before a statement that reads or writes memory other
@@ -1095,7 +1134,7 @@ func Execute(t *testing.T, src Source, configure func(src Source) Config, body f
 			if cfg.MaxYields == 0 {
 				cfg.MaxYields = max(100000, cfg.MaxSteps/2)
 			}
-			s = &Sim{cfg: cfg, src: src, gs: map[uint64]*G{}, locks: map[any]*lockModel{},
+			s = &Sim{cfg: cfg, src: src, gs: map[uint64]*G{}, locks: map[any]*lockModel{}, pools: map[*sync.Pool][]any{},
 				notify: make(chan struct{}, 1), unlockCh: make(chan struct{}), probes: map[string]int{}, faults: map[string]int{},
 				thash: 14695981039346656037, start: time.Now()}
 			if cfg.Strategy == 2 {
